@@ -234,8 +234,8 @@ def _gen_spec(rng: Rng, want_mc, min_ports, profile) -> dict:
     for _ in range(n_req):
         itf = rng.choice(interfaces)
         ports.append({'name': pnames.ident('port'), 'dir': 'requires', 'itf': itf['ns'] + [itf['name']], 'injected': False})
-    for _ in range(n_inj):
-        itf = rng.choice(interfaces)
+    inj_itfs = rng.shuffle(interfaces)[:n_inj]   # one instance per type lives in a locator: distinct interfaces
+    for itf in inj_itfs:
         ports.append({'name': pnames.ident('port'), 'dir': 'requires', 'itf': itf['ns'] + [itf['name']], 'injected': True})
     ports = rng.shuffle(ports)
     comp = {'kind': rng.weighted([(3, 'component'), (2, 'system')]), 'ns': list(comp_ns),
